@@ -68,6 +68,11 @@ CHECKS = {
    note=TB + "The between-class scatter identity (code form = pairwise form) is checked numerically by the twin on every run but proved only for the within-class matrix and the per-class G (C09_lfda_pairwise_Sw); completeness of the generalized eigen-solution rests on the external eigen-solver, certified a posteriori.",
    technique="Lean 4 proof (Penrose uniqueness, whitening algebra, Laplacian/pairwise scatter identity) + certificate evaluation on real fits",
    ref="§6 C09"),
+ 'C11': dict(
+   text="Loop invariant by induction over ANY sequence of Bregman projections (any order, any number of sweeps / max_iter), for every prior A₀ ≻ 0, every list of non-collapsed pairs, every γ > 0 and positive bounds: the iterate is symmetric positive definite, A·(A₀⁻¹ + Σ y_i λ_i v_i v_iᵀ) = 1 (so M⁻¹ − M₀⁻¹ is the signed combination with the solver's duals), λ ≥ 0, ξ > 0 (Sherman–Morrison step, PD through the inverse when the step is negative, scalar bounds for positive and negative pairs). A prior that satisfies all bounds is a fixed point of every sweep. The theorems are about the very definitions the compiled Float twin executes (bridge lemma model step = Mathlib matrix expression). Tie: the twin replays real ITML / ITML_Supervised fits (prior captured from the real initialiser; priors identity/covariance/random/array, γ, explicit/default bounds, max_iter 1…1000, tol) and must reproduce M and n_iter_ within a tolerance calibrated per instance by a last-bit perturbation probe; the KKT certificate (stationarity with the twin's duals, dual feasibility, slackness at convergence) and an NNLS oracle are evaluated on the implementation's M.",
+   note=TB + "Proved: the invariant/certificate half (dual feasibility, stationarity, PD) and that convergence of the solver is exactly the slackness condition. Not proved: that the KKT point is the unique minimiser of the slack-regularised LogDet problem (convex-analysis lift) — that clause is carried by the per-run certificate only.",
+   technique="Lean 4 proof (loop invariant by induction, Sherman–Morrison / PosDef algebra on the executable model) + Float-twin replay of real fits",
+   ref="§6 C11"),
 }
 
 NOT_YET = {}
